@@ -499,3 +499,30 @@ Proof.
       destruct (optN_eqb (at_handle x) (Some h')) eqn:Z; auto. apply optN_eqb_eq in Z. rewrite Y in Z. inversion Z; subst.
       rewrite N.eqb_refl in E; discriminate.
 Qed.
+
+(* ------------------------------------------------------------------ stored handles have no empty / zero entries *)
+Definition hpos (m : list (N * N)) : Prop := Forall (fun p => (0 < snd p)%N) m.
+Definition hgood (m : list (N * N)) : Prop := hsorted m /\ hpos m /\ m <> [].
+
+Lemma hinc_pos m c n : hpos m -> (0 < n)%N -> hpos (hinc m c n) /\ hinc m c n <> [].
+Proof.
+  induction m as [|[k v] t IH]; simpl; intros P PN.
+  - split; [constructor; simpl; auto|discriminate].
+  - inversion P as [|? ? PV PT]; subst. simpl in PV.
+    destruct (N.eqb k c); [split; [constructor; simpl; auto; lia | discriminate]|].
+    destruct (N.ltb c k); [split; [constructor; simpl; auto | discriminate]|].
+    destruct (IH PT PN) as [A _]. split; [constructor; auto | discriminate].
+Qed.
+
+Lemma hdec_pos m c n : forall m', hpos m -> hdec m c n = Some m' -> hpos m'.
+Proof.
+  induction m as [|[k v] t IH]; simpl; intros m' P HD; [discriminate|].
+  inversion P as [|? ? PV PT]; subst. simpl in PV.
+  destruct (N.eqb k c).
+  - destruct (N.ltb v n) eqn:LT; [discriminate|]. apply N.ltb_ge in LT.
+    destruct (N.eqb v n) eqn:EQ.
+    + inversion HD; subst; auto.
+    + apply N.eqb_neq in EQ. inversion HD; subst. constructor; [simpl; lia | exact PT].
+  - destruct (hdec t c n) as [t'|] eqn:HH; [|discriminate]. inversion HD; subst.
+    constructor; [exact PV | apply IH; auto].
+Qed.
